@@ -30,7 +30,9 @@ EVIDENCE_DIR = os.path.join(VERIF, "evidence")
 REPLAY_DIR = os.path.join(VERIF, "replays")
 CORPUS_DIR = os.path.join(VERIF, "corpus")
 ALLOWED_AXIOMS = {"propext", "Classical.choice", "Quot.sound"}
-FORBIDDEN = re.compile(r"\b(sorry|admit|native_decide|bv_decide|implemented_by|unsafe)\b|^\s*axiom\s|maxHeartbeats\s+0\b")
+# `admit` is not grepped (it is a legitimate identifier in models); as a tactic it elaborates to `sorryAx`,
+# which the per-theorem axiom audit rejects.
+FORBIDDEN = re.compile(r"\b(sorry|native_decide|bv_decide|implemented_by)\b|\bunsafe\s|^\s*axiom\s|maxHeartbeats\s+0\b")
 
 TRUSTED_BASE_COMMON = [
     "Lean 4.33.0 kernel (theorems in lean/Props; axioms audited per theorem on every run: subset of propext, Classical.choice, Quot.sound)",
@@ -77,10 +79,29 @@ def lean_sources():
                     yield os.path.join(d, f)
 
 
-def forbidden_scan():
-    """non-comment occurrences of sorry/admit/axiom/native_decide/… in the lean sources"""
+def import_closure(modules):
+    """lean source files (inside this project) transitively imported by `modules`"""
+    seen, todo, files = set(), list(modules), []
+    while todo:
+        m = todo.pop()
+        if m in seen:
+            continue
+        seen.add(m)
+        path = os.path.join(LEAN, *m.split(".")) + ".lean"
+        if not os.path.exists(path):
+            continue
+        files.append(path)
+        for line in open(path, encoding="utf-8"):
+            mm = re.match(r"\s*(?:public\s+)?import\s+([\w.]+)", line)
+            if mm:
+                todo.append(mm.group(1))
+    return sorted(files)
+
+
+def forbidden_scan(modules=None):
+    """non-comment occurrences of sorry/axiom/native_decide/… in the lean sources the property depends on"""
     hits = []
-    for p in lean_sources():
+    for p in (import_closure(modules) if modules else lean_sources()):
         txt = strip_lean_comments(open(p, encoding="utf-8").read())
         for ln, line in enumerate(txt.split("\n"), 1):
             if FORBIDDEN.search(line):
